@@ -176,7 +176,7 @@ def run(ctx):
     else:
         corpus = [l.rstrip("\n") for l in open("props/C43/corpus.ops") if l.strip() and not l.startswith("#")]
         scenarios = [("corpus", corpus[a:b]) for a, b in H.split_scenarios(corpus)]
-        for _ in range(ctx.scale(800, 10000)):
+        for _ in range(ctx.scale(800, 12000)):
             scenarios.append(("gen", gen_scenario(ctx.rng)))
     ops = [l for _, s in scenarios for l in s]
     impl = ctx.go_run(binary, TEST, ops)
